@@ -20,6 +20,7 @@ const (
 	dStr
 	dList
 	dMap
+	dTime // a timestamp: a datetime literal in TOML, a string in the other three syntaxes
 )
 
 type kv struct {
@@ -42,6 +43,7 @@ func dB(b bool) *doc     { return &doc{kind: dBool, b: b} }
 func dI(i int64) *doc    { return &doc{kind: dInt, i: i} }
 func dU(u uint64) *doc   { if u <= 1<<63-1 { return dI(int64(u)) }; return &doc{kind: dInt, u: u, big: true} }
 func dS(s string) *doc   { return &doc{kind: dStr, s: s} }
+func dT(s string) *doc   { return &doc{kind: dTime, s: s} }
 func dL(l ...*doc) *doc  { return &doc{kind: dList, list: l} }
 func dM(kvs ...kv) *doc  { return &doc{kind: dMap, kvs: kvs} }
 
@@ -61,6 +63,8 @@ func (d *doc) term() string {
 		return "(DInt (" + d.intText() + ")%Z)"
 	case dStr:
 		return "(DStr " + coqfmt.Str(d.s) + ")"
+	case dTime:
+		return "(DTime " + coqfmt.Str(d.s) + ")"
 	case dList:
 		parts := make([]string, len(d.list))
 		for i, e := range d.list {
@@ -81,7 +85,7 @@ func q(s string) string {
 	return string(b)
 }
 
-func isScalar(d *doc) bool { return d.kind == dBool || d.kind == dInt || d.kind == dStr }
+func isScalar(d *doc) bool { return d.kind == dBool || d.kind == dInt || d.kind == dStr || d.kind == dTime }
 
 func scalarText(d *doc) string {
 	switch d.kind {
@@ -207,6 +211,8 @@ func tomlKey(k string) string {
 
 func tomlInline(d *doc) string {
 	switch d.kind {
+	case dTime:
+		return d.s
 	case dList:
 		parts := make([]string, len(d.list))
 		for i, e := range d.list {
